@@ -20,6 +20,10 @@ structure Inv (s : State) : Prop where
   e : ∀ k, s.pc k = .start → s.consumed k = false
   f : s.readerBlocked = false
   g : ∀ c, (s.conn c).loops ≤ 1 ∧ ((s.conn c).status = .connecting ↔ (s.conn c).loops = 1)
+  /-- `Connection.mu` is held inside a write by call k exactly while k is in `Send` on that connection … -/
+  w : ∀ c k, (s.conn c).writer = some (.call k) ↔ s.pc k = .sending c
+  /-- … and only on a connection that is `Connected` (the status cannot change while the mutex is held) -/
+  w2 : ∀ c, (s.conn c).writer ≠ none → (s.conn c).status = .connected
 
 theorem inv_init : Inv idOf init := by
   constructor <;> simp [init]
@@ -42,7 +46,14 @@ theorem reconnectBody_g (cn : Conn) (h : cn.loops ≤ 1 ∧ (cn.status = .connec
 /-- every clause of `Inv` is preserved by every action (15 actions × 6 clauses, closed by `grind`) -/
 theorem inv_step {s s' : State} {a : Action} (hi : Inv idOf s) (h : step idOf nConn s a = some s') :
     Inv idOf s' := by
-  obtain ⟨ha, hb, hc, he, hf, hg⟩ := hi
+  obtain ⟨ha, hb, hc, he, hf, hg, hw, hw2⟩ := hi
+  have hw' : ∀ c k k', s.pc k = .sending c → s.pc k' = .sending c → k = k' := by
+    intro c k k' h1 h2
+    have e1 := (hw c k).mpr h1
+    have e2 := (hw c k').mpr h2
+    rw [e1] at e2
+    cases e2; rfl
+  have hw'' : ∀ c k, s.pc k = .sending c → (s.conn c).writer = some (.call k) := fun c k h => (hw c k).mpr h
   cases a <;> simp only [step] at h <;> (repeat' split at h) <;> (try cases h) <;>
     (constructor <;> (try simp only [set_apply] at *) <;>
       first
@@ -90,7 +101,7 @@ theorem tinv_init : TInv idOf [] init := by
 
 theorem tinv_step {as : List Action} {s s' : State} {a : Action} (hi : Inv idOf s) (ht : TInv idOf as s)
     (h : step idOf nConn s a = some s') : TInv idOf (as ++ [a]) s' := by
-  obtain ⟨ha, hb, hc, he, hf, hg⟩ := hi
+  obtain ⟨ha, hb, hc, he, hf, hg, hw, hw2⟩ := hi
   obtain ⟨t1, t2, t3, t4⟩ := ht
   have mono : ∀ k b, Delivered idOf as k b → Delivered idOf (as ++ [a]) k b := fun k b h => h.mono idOf a
   have mem : ∀ x, x ∈ as → x ∈ as ++ [a] := fun x hx => List.mem_append_left _ hx
@@ -167,7 +178,7 @@ theorem finv_init : FInv idOf [] init := by
 
 theorem finv_step {as : List Action} {s s' : State} {a : Action} (hi : Inv idOf s) (ht : FInv idOf as s)
     (h : step idOf nConn s a = some s') : FInv idOf (as ++ [a]) s' := by
-  obtain ⟨ha, hb, hc, he, hf, hg⟩ := hi
+  obtain ⟨ha, hb, hc, he, hf, hg, hw, hw2⟩ := hi
   obtain ⟨f1, f2, f3, f4⟩ := ht
   have fmono : ∀ k, Fresh idOf as k → delivId a ≠ some (idOf k) → Fresh idOf (as ++ [a]) k :=
     fun k h h' => h.mono idOf a h'
@@ -201,9 +212,10 @@ theorem finv_run {pre as : List Action} {s s' : State} (hi : Inv idOf s) (ht : F
 
 /-- number of own steps a call still has to take at most -/
 def Pc.rank : Pc → Nat
-  | .start => 5
-  | .registered => 4
-  | .picked _ => 3
+  | .start => 6
+  | .registered => 5
+  | .picked _ => 4
+  | .sending _ => 3
   | .waiting => 2
   | .returning _ => 1
   | .returned _ => 0
@@ -211,11 +223,18 @@ def Pc.rank : Pc → Nat
 /-- connected, writable, and being read -/
 def Healthy (cn : Conn) : Prop := cn.status = .connected ∧ cn.sockOk = true ∧ cn.reader = true
 
-/-- the steps that bring a connection back: its socket reports the failure, a Send of the ping goroutine fails
-(unless a failed Send already spawned a reconnect), the spawned reconnect() runs, the new handshake succeeds -/
+/-- the steps that bring a connection back: its socket reports the failure; whoever is inside a write on it gets the
+error and releases the mutex; a Send of the ping goroutine fails (unless a failed write already spawned a reconnect); the
+spawned reconnect() runs; the new handshake succeeds -/
 def recovery (cn : Conn) (c : Nat) : List Action :=
   if cn.status = .connecting then [.reconnectOk c]
-  else (if cn.sockOk then [.sockDead c] else []) ++ (if cn.spawned > 0 then [] else [.pingFail c]) ++
+  else
+    (if cn.sockOk then [.sockDead c] else []) ++
+    (match cn.writer with
+      | some (.call k) => [.writeFail k]
+      | some .ping => [.pingDone c]
+      | none => []) ++
+    (if cn.spawned > 0 ∨ cn.writer ≠ none then [] else [.pingFail c]) ++
     [.reconnectStart c, .reconnectOk c]
 
 /-! ### program-counter facts along a trace -/
@@ -257,7 +276,7 @@ theorem pcinv_run {pre as : List Action} {s s' : State} (hp : PcInv pre s)
 def IdsDistinct : Prop := ∀ k k', idOf k = idOf k' → k = k'
 
 def InFlight (s : State) (k : Nat) : Prop :=
-  s.pc k = .registered ∨ (∃ c, s.pc k = .picked c) ∨ s.pc k = .waiting
+  s.pc k = .registered ∨ (∃ c, s.pc k = .picked c) ∨ (∃ c, s.pc k = .sending c) ∨ s.pc k = .waiting
 
 def RInv (s : State) : Prop := ∀ k, InFlight s k → s.consumed k = false → s.queries (idOf k) = some k
 
@@ -266,7 +285,7 @@ theorem rinv_init : RInv idOf init := by
 
 theorem rinv_step (hd : IdsDistinct idOf) {s s' : State} {a : Action} (hi : Inv idOf s) (hr : RInv idOf s)
     (h : step idOf nConn s a = some s') : RInv idOf s' := by
-  obtain ⟨ha, hb, hc, he, hf, hg⟩ := hi
+  obtain ⟨ha, hb, hc, he, hf, hg, hw, hw2⟩ := hi
   unfold RInv InFlight at *
   unfold IdsDistinct at hd
   cases a <;> simp only [step] at h <;> (repeat' split at h) <;> (try cases h) <;>
